@@ -180,7 +180,7 @@ def run(tier, seed):
                 for s in p['sections']:
                     for c in (s['src']['callouts'] or {'callouts': []})['callouts']:
                         ck.count('fru flags low nibble %X pce=%d mru=%s' % (c['fru']['flags'] & 0xF, int(bool(c['pce'])), 'n' if not c['mru'] else str(len(c['mru']['items']))))
-                compare(ck, p, data, real, model, spec if ok else None, label='src', allow_plugins=allow)
+                compare(ck, p, data, real, model, spec if ok else None, label='src', allow_plugins=allow, env_kwargs=dict(allow=allow, src=SRC_FIX, callout=CO_FIX, registry=registry))
         finally:
             env.uninstall()
     # keep the per-combination histogram compact
